@@ -135,7 +135,10 @@ def planFileAct (cfg : Cfg) (m : FileMeta) : Option DNode → Act
 /-- `plan_file_async` + `plan_symlink` for one filtered entry -/
 def planEntry (cfg : Cfg) (dst : Map DNode) (e : SEntry) : Task :=
   match e.kind with
-  | .dir => ⟨if (dst.get? e.rel).isSome then .skip else .create, e.rel, .dir⟩
+  -- a non-directory at the path of a source directory is planned as a creation, which then fails
+  -- (`create_dir_all` → EEXIST; src/sync/strategy.rs `plan_file_async` after fix 481828a); a
+  -- destination symlink there is outside the model's WF
+  | .dir => ⟨match dst.get? e.rel with | some .dir => .skip | _ => .create, e.rel, .dir⟩
   | .file m n => ⟨planFileAct cfg m (dst.get? e.rel), e.rel, .file m n⟩
   | .symlink text tgt =>
     match cfg.links with
